@@ -54,7 +54,8 @@ def rand_history(rng, length, nregs):
 
     def nid():
         r = rng.random()
-        if created and r < 0.82: return rng.randrange(created)
+        if created and r < 0.78: return rng.randrange(created)
+        if created and r < 0.84: return (1 << 20) + rng.randrange(created)      # a live id + 2^32: never issued, equal to it modulo 2^32
         if r < 0.90: return created + rng.randrange(3)          # not created yet -> never issued
         return rng.choice(NEVER)
     st = lambda: rng.choice([0, 1, 1, 7, 7, -1, 2147483647, -2147483648])
